@@ -69,9 +69,23 @@ CHECKS['C03'] = {
                  'pairwise-sort lemma',
 }
 
+CHECKS['C02'] = {
+    'text': 'Bounded symbolic model checking of aggregation: an inductive step for every aggregator class (arbitrary '
+            'accumulated state, one update with a symbolic operand or NULL, finalize; initialize and store-slot '
+            'isolation) and whole grouped queries (per aggregate function, WHERE/HAVING variants, every way of naming '
+            'the grouping key, arithmetic over aggregates, additivity, empty selections) on 2-3 row tables with '
+            'unbounded symbolic values, against a reference written from the property.',
+    'design_ref': 'DESIGN.md section 5, C02',
+    'note': _COMMON_NOTE + ' Grouping keys are hashed by the executor and therefore range over {NULL, 0, 1}; the '
+            'aggregated values are unbounded symbolic ints (Decimals from the palette). Any row count follows from '
+            'the step plus the row-loop shape checked on 2-3 rows.',
+    'technique': 'symbolic execution (CrossHair/z3) of aggregator classes (inductive step) and execute_select '
+                 'against a reference interpreter',
+}
+
 NOT_APPLICABLE = {
     pid: 'check under construction in this session; not claimed yet'
-    for pid in ['C02', 'C04', 'C05', 'C06', 'C07', 'C08', 'C09', 'C11', 'C12', 'C13',
+    for pid in [ 'C04', 'C05', 'C06', 'C07', 'C08', 'C09', 'C11', 'C12', 'C13',
                 'C14', 'C15', 'C16', 'C17', 'C18', 'C19', 'C20']
 }
 
